@@ -355,12 +355,13 @@ func VerifLemma_C10B_SelectAddedModule() {
 		input := make([]*addedModule, k)
 		copy(input, candidates)
 		got, err := selectAddedModuleForOpaqueID(ctx, provider, input)
-		vCheckSelected(k, candidates, isLocal, isTarget, commitOf, provider, got, err)
+		vCheckSelected(k, candidates, isLocal, isTarget, commitOf, provider, got, err, r == 0)
 	}
 }
 
-// vCheckSelected compares one result of selectAddedModuleForOpaqueID against the reference rule.
-func vCheckSelected(k int, candidates []*addedModule, isLocal [vMaxMods]bool, isTarget [vMaxMods]bool, commitOf [vMaxMods]int, provider *vCommitProvider, got *addedModule, err error) {
+// vCheckSelected compares one result of selectAddedModuleForOpaqueID against the reference rule (cover points only
+// on the first repetition, so that engine and native runs report the same cover sequence).
+func vCheckSelected(k int, candidates []*addedModule, isLocal [vMaxMods]bool, isTarget [vMaxMods]bool, commitOf [vMaxMods]int, provider *vCommitProvider, got *addedModule, err error, cover bool) {
 
 	// Reference.
 	anyTarget := false
@@ -380,7 +381,9 @@ func vCheckSelected(k int, candidates []*addedModule, isLocal [vMaxMods]bool, is
 		}
 	}
 	if firstLocal >= 0 {
-		verifCover("local wins")
+		if cover {
+			verifCover("local wins")
+		}
 		verifAssert(err == nil && got == candidates[firstLocal], "first considered local module is chosen")
 		verifAssert(provider.calls == 0, "provider not asked when a local module exists")
 		return
@@ -395,7 +398,9 @@ func vCheckSelected(k int, candidates []*addedModule, isLocal [vMaxMods]bool, is
 		}
 	}
 	if distinct == 1 {
-		verifCover("single remote commit")
+		if cover {
+			verifCover("single remote commit")
+		}
 		verifAssert(err == nil && got != nil, "single remote commit needs no provider")
 		if got == nil {
 			return
@@ -413,11 +418,15 @@ func vCheckSelected(k int, candidates []*addedModule, isLocal [vMaxMods]bool, is
 		return
 	}
 	if provider.fail {
-		verifCover("provider failure")
+		if cover {
+			verifCover("provider failure")
+		}
 		verifAssert(err != nil && errors.Is(err, vErrProvider), "provider failure is reported")
 		return
 	}
-	verifCover("newest remote commit")
+	if cover {
+		verifCover("newest remote commit")
+	}
 	verifAssert(err == nil && got != nil, "selection succeeds")
 	if got == nil {
 		return
